@@ -56,7 +56,9 @@ def THRESHOLD_EST(eye_obj: eye):
     s1 = eye_obj.s1
 
     r = np.linspace(mu0, mu1, 1000)
-    umbral = r[np.argmin( 0.5*(Q((mu1-r)/s1) + Q((r-mu0)/s0)) )]
+    pe = 0.5*(Q((mu1-r)/s1) + Q((r-mu0)/s0))
+    ties = np.flatnonzero(pe == np.nanmin(pe))  # every minimiser: for a nearly noise-free eye the cost underflows to 0 over a stretch of the grid
+    umbral = r[ties[len(ties)//2]]  # the middle one (argmin would take the first, next to mu0)
     return umbral
 
 
